@@ -139,10 +139,12 @@ class Monitor:
         self.dicts.append([label, d, tuple((k, str(v)) for k, v in d.items())])
         return d
 
-    def check(self):
-        """Return a list of (label, description) for everything that changed."""
+    def check(self, since=None):
+        """Return a list of (label, description) for everything that changed.  `since` = (first array
+        index, first held index): restrict to what the current program registered (per-step checks)."""
         out = []
-        for rec in self.arrays:
+        a0, h0 = since if since is not None else (0, 0)
+        for rec in self.arrays[a0:]:
             label, a, d, base, bd = rec
             if digest(a) != d:
                 out.append((label, "leaf array contents changed"))
@@ -151,7 +153,7 @@ class Monitor:
             if self.mode == "ro" and (a.flags.writeable or base.flags.writeable):
                 out.append((label, "read-only flag of a leaf array was cleared"))
         cache = {}
-        for rec in self.held:
+        for rec in self.held[h0:]:
             label, f, s, sg = rec
             try:
                 sg2 = sig(f, cache)
@@ -163,9 +165,9 @@ class Monitor:
                 except Exception as e:
                     s2 = ("unsnappable", type(e).__name__, str(e)[:100])
                 out.append((label, "held funsor changed: " + first_diff(s, s2)))
-        for what in self.attr_scan([rec[1] for rec in self.held], cache):
+        for what in self.attr_scan([rec[1] for rec in self.held[h0:]], cache):
             out.append(("attr", what))
-        for rec in self.dicts:
+        for rec in self.dicts if since is None else ():
             label, d, s = rec
             if tuple((k, str(v)) for k, v in d.items()) != s:
                 out.append((label, "user-supplied inputs dict changed"))
@@ -344,20 +346,24 @@ def snap(x, memo):
 class B:
     """What a program sees: a PRNG, array factory, funsor holder."""
 
-    EDGE_VALUES = (float("-inf"), float("-inf"), float("-inf"), float("inf"), 0.0)
-    EDGE_DENSITIES = ("one", "some", "all")
+    EDGE_VALUES = (float("-inf"), float("-inf"), float("-inf"), float("inf"), 0.0, float("nan"), float("nan"),
+                   -0.0, 5e-324, 1e-310)
+    EDGE_DENSITIES = ("one", "some", "all", "row", "row")
 
     def __init__(self, mon, rng, edge="auto"):
         self.mon = mon
         self.rng = rng
         self.npr = np.random.RandomState(rng.randrange(2 ** 31))
         # edge-value regime of this run: None (ordinary data) or (value, density).  Leaf arrays of the
-        # float kinds get that value in one / some / all cells (never NaN).
+        # float kinds get that value (-inf, +inf, 0, -0.0, nan, a subnormal) in one / some / all cells or in a
+        # whole row (all cells along the last axis for one leading index: an "empty row" of log-weights);
+        # integer (index) arrays get their domain bounds 0 / n-1.  Comparison is by bytes, so nan is fine.
         u, v, d = rng.random(), rng.choice(self.EDGE_VALUES), rng.choice(self.EDGE_DENSITIES)
         if edge == "auto":
             edge = None if u < 0.5 else (v, d)
         self.edge = edge
         self.history = []
+        self.since = (len(mon.arrays), len(mon.held))     # what this program registers starts here
         self.declined = 0
         self.evaluated = 0
         self.decl_kinds = {}
@@ -369,7 +375,15 @@ class B:
         value, density = spec
         a = np.array(a, dtype=a.dtype)
         flat = a.reshape(-1)
-        if density == "one":
+        if density == "row":
+            if a.ndim >= 2:
+                rows = a.reshape(-1, a.shape[-1])
+                rows[self.npr.randint(rows.shape[0])] = value
+                if rows.shape[0] > 2 and self.npr.uniform() < 0.3:
+                    rows[self.npr.randint(rows.shape[0])] = value
+            else:
+                flat[:] = value
+        elif density == "one":
             flat[self.npr.randint(flat.size)] = value
         elif density == "some":
             mask = self.npr.uniform(size=flat.size) < 0.35
@@ -397,6 +411,9 @@ class B:
             a = r.randint(0, 2, size=shape).astype(bool)
         elif kind.startswith("int:"):
             a = r.randint(0, int(kind[4:]), size=shape).astype(np.int64)
+            if edge and self.edge is not None and a.size:      # index arrays at their domain bounds
+                fl = a.reshape(-1)
+                fl[r.uniform(size=fl.size) < 0.4] = r.choice([0, int(kind[4:]) - 1])
         elif kind == "smallint":
             a = r.randint(0, 4, size=shape).astype(np.float64)
         elif kind == "spd":          # shape = batch + (n, n): symmetric positive definite
@@ -445,7 +462,7 @@ class B:
         snapshot taken so far.  Raises MutationObserved with the history when something changed."""
         self.history.append(label)
         r = self.t(thunk)
-        bad = self.mon.check()
+        bad = self.mon.check(since=self.since)
         if bad:
             raise MutationObserved(list(self.history), bad)
         return r
@@ -1416,7 +1433,7 @@ def p_gaussian_histories(b):
         steps["g.reduce(logaddexp, y)"] = lambda: g.reduce(ops.logaddexp, "y")
         steps["Integrate(g, y, all)"] = lambda: Integrate(g, Variable("y", Reals[2]), allvars)
     obs0 = observe()
-    bad0 = b.mon.check()
+    bad0 = b.mon.check(since=b.since)
     if bad0:
         raise MutationObserved(["observe g (probe substitution, mass, mode, first moment)"], bad0)
     names = list(steps)
@@ -1428,7 +1445,7 @@ def p_gaussian_histories(b):
             which = [i for i, (u, v) in enumerate(zip(obs0, obs)) if u != v]
             names_ = ["g(probe)", "log mass", "mode", "_mean", "_precision", "log_normalizer", "first moment"]
             raise MutationObserved(list(b.history), [("observable", "value of g changed: " + ", ".join(names_[i] for i in which))])
-        bad = b.mon.check()
+        bad = b.mon.check(since=b.since)
         if bad:
             raise MutationObserved(list(b.history) + ["observe g"], bad)
 
@@ -1436,6 +1453,60 @@ def p_gaussian_histories(b):
 def _mc_integrate(g, x, allvars):
     with MonteCarlo(particle=Bint[3]):
         return Integrate(g, x, allvars)
+
+
+@program
+def p_approximations(b):
+    """Approximation entry points on held Tensors: compute_argmax and Funsor.approximate(op, guide, vars)
+    under argmax / laplace / mean / moment-matching / MonteCarlo, with guide = Tensor over a raw user array
+    (with nan cells / -inf rows), guide = normalised intermediate, single and multiple approximated
+    variables in leading / non-leading position."""
+    from funsor.approximations import (compute_argmax, argmax_approximate, mean_approximate,
+                                       laplace_approximate)
+    np.random.seed(b.rng.randrange(2 ** 31))
+    ns = [("p", 3), ("i", 3), ("q", 2)]
+    b.rng.shuffle(ns)
+    ns = ns[: b.rng.randint(2, 3)] if ("i", 3) in ns[:2] else [("i", 3)] + ns[:1]
+    sizes = dict(ns)
+    w = b.tensor(ns, (), kind="logp")
+    special = b.rng.choice([float("nan"), float("nan"), float("-inf"), float("inf")])
+    raw = b.own(b.inject(np.asarray(b.npr.randn(*[s_ for _, s_ in ns])),
+                         always=(special, b.rng.choice(["one", "some", "row"]))))
+    graw = b.hold(Tensor(raw, b.inputs(ns)))
+    # an all -inf row, then normalised: the row becomes nan (-inf - -inf)
+    lw = b.own(b.inject(np.asarray(b.npr.randn(*[s_ for _, s_ in ns])), always=(float("-inf"), "row")))
+    tw = b.hold(Tensor(lw, b.inputs(ns)))
+    names = [n for n, _ in ns]
+    gnorm = b.t(lambda: tw - tw.reduce(ops.logaddexp, "i"))
+    gnorm2 = b.t(lambda: w - w.reduce(ops.logaddexp, names[-1]))
+    model = b.tensor(ns, ())
+    guides = [g_ for g_ in (graw, gnorm, gnorm2, w, tw) if g_ is not None]
+    varsets = [frozenset(["i"]), frozenset([names[0]]), frozenset([names[-1]]), frozenset(names[:2]),
+               frozenset(names[-2:]), frozenset(names)]
+    interps = [argmax_approximate, laplace_approximate, mean_approximate, moment_matching, eager,
+               MonteCarlo(), MonteCarlo(particle=Bint[2])]
+    for g_ in b.rng.sample(guides, min(3, len(guides))):
+        for vs in b.rng.sample(varsets, 2):
+            vv = frozenset(Variable(n, Bint[sizes[n]]) for n in vs)
+            b.step(f"compute_argmax(guide, {sorted(vs)})", lambda: compute_argmax(g_, vv))
+            for op in (ops.logaddexp, ops.max):
+                with normalize:
+                    lazy_ap = b.t(lambda: model.approximate(op, g_, vs))
+                for interp in b.rng.sample(interps, 2):
+                    def go():
+                        with interp:
+                            return model.approximate(op, g_, vs)
+                    b.step(f"model.approximate({op}, guide, {sorted(vs)}) under {getattr(interp, '__name__', type(interp).__name__)}", go)
+                    if lazy_ap is not None:
+                        def go2():
+                            with interp:
+                                return reinterpret(lazy_ap)
+                        b.t(go2)
+    # adjoint under argmax_approximate (uses Approximate(sum_op, out_adj, out_adj * arg, vars))
+    with argmax_approximate:
+        with AdjointTape() as tape:
+            out = (graw + model).reduce(ops.logaddexp, frozenset(names))
+        b.t(lambda: tape.adjoint(ops.logaddexp, ops.add, out, (graw, model)))
 
 
 def run_program(name, mon, rng, edge="auto"):
